@@ -43,7 +43,7 @@ PROLOGUE = ("import Comp from './c'; import * as NS from './n'; import { KeepAli
 HTML = ["div", "span", "input", "select", "textarea", "p", "a", "button"]
 SVG = ["svg", "circle", "path"]
 TEXT_ALPHA = [" ", " ", "\t", "\n", "\r\n", "\r", " ", " ", "　", "\x0b", "x", "y", "Z", "&nbsp;", "&amp;", "&#8195;", "é"]
-ATTR_TEXT = [" ", "\t", "\n", "a", "b", "-", " ", "c d"]
+ATTR_TEXT = [" ", "\t", "\n", "a", "b", "-", " ", "c d", "\\", "\\u", "\r", "  \n"]
 PATTERNS = ["^x-", "^my-", "^Foo$", "-el$", "^U$"]
 MODS = ["a", "b", "trim", "lazy", "a-b", "1x"]
 
@@ -199,7 +199,8 @@ class Gen:
         r = self.r
         base = r.wpick([(3, "v-show"), (3, "v-custom"), (2, "vCus"), (2, "vFooBar"), (3, "v-model"), (1, "vModel"),
                         (2, "v-html"), (2, "v-text"), (2, "v-slots"), (1, "v-models"), (1, "v--x"), (1, "vvX"), (1, "vHtml"),
-                        (2, "v-validate"), (1, "v-v-x"), (1, "vVisible"), (1, "v-vv"), (1, "v-Show"), (1, "vShow")])
+                        (2, "v-validate"), (1, "v-v-x"), (1, "vVisible"), (1, "v-vv"), (1, "v-Show"), (1, "vShow"),
+                        (1, "vXAxis"), (1, "v-BToggle"), (1, "vUIState"), (1, "vHTML"), (1, "v-MODEL")])
         self.f("dir:" + base)
         name = base
         heavy = getattr(self, "dir_heavy", False)
@@ -240,7 +241,7 @@ class Gen:
             return name
         if c == 1:
             self.f("dirval:string")
-            return f'{name}="str"'
+            return name + "=" + r.pick(['"str"', '"C:\\users\\me"', '"a\\"', '"two\n  lines "', "'q'"])
         if c == 2 and d > 0:
             self.f("dirval:elem")
             return f"{name}=<b/>"
@@ -313,7 +314,7 @@ class Gen:
         if k == "nativeOn":
             return "nativeOn=" + self.braced(r.pick(["{ click: fn }", "y"]))
         if k == "type":
-            return "type" + r.pick(['="checkbox"', '="radio"', '="text"', "={t}", "", '="CHECKBOX"'])
+            return "type" + r.pick(['="checkbox"', '="radio"', '="text"', "={t}", "", '="CHECKBOX"', '={"checkbox"}', "={'radio'}", '={"text"}'])
         if k == "directive":
             return self.directive(d)
         if k == "elemval" and d > 0:
@@ -461,6 +462,8 @@ class Gen:
                 parts.append(self.distractor(2) + "\n")
             ctx = r.below(13)
             e = self.expr(3) if r.chance(1, 4) else self.elem(2)
+            if r.chance(1, 5):
+                e = r.pick(SCOPE_SPECIAL)       # lowerings that need a temporary, a capture or a helper
             self.f("ctx:%d" % ctx)
             if ctx <= 3:
                 parts.append(f"const v{len(parts)} = {e};\n")
@@ -482,6 +485,9 @@ class Gen:
                 parts.append(f"const o{len(parts)} = {{ m(p = {e}) {{ return p }}, k: function (q = {self.elem(1)}) {{ return q }}, async *g(r = {e}) {{ yield r }} }};\n")
             else:
                 parts.append(f"({e});\n")
+        # JSX-free code AFTER the JSX statements as well: it must come back untouched
+        for _ in range(r.below(3)):
+            parts.append(self.distractor(2) + "\n")
         return "".join(parts)
 
     def options(self):
@@ -570,7 +576,7 @@ def gen_ctx_cases(seed, n, start_id=0):
         for f in ("pre:%d" % pre.count("\n"), "suf:%d" % suf.count("\n")):
             g.f(f)
         out.append({"id": start_id + i, "src": PROLOGUE + pre + site + suf, "src_alt": PROLOGUE + site,
-                    "syntax": "jsx", "options": json.dumps(opts), "stream": "ctx", "feat": sorted(g.feat)})
+                    "syntax": "jsx", "options": json.dumps(opts), "stream": "ctx", "keep_json": True, "feat": sorted(g.feat)})
     return out
 
 
@@ -640,13 +646,18 @@ def gen_matrix_cases(start_id=0):
         out.append({"id": start_id + len(out), "src": PROLOGUE + "const __site = " + el + ";\n", "syntax": "jsx",
                     "options": json.dumps(opts), "stream": "site", "feat": ["matrix"]})
     k = 0
+    for ty in ['type="checkbox"', 'type="radio"', 'type="text"', 'type={t}', 'type={"checkbox"}', "type={'radio'}", "type", 'type="CHECKBOX"']:
+        for host in ["input", "Comp", "textarea"]:
+            add("<%s %s v-model={val} />" % (host, ty), k); k += 1
+            add("<%s v-model={[val, ['lazy']]} %s />" % (host, ty), k); k += 1
     for host in ["Comp", "input", "select"]:
         for name in ["v-model", "vModel", "v-model:title", "v-model_trim", "v-model_trim_lazy", "v-model:title_trim", "vModel:value_a"]:
             for value in ["val", "[val]", "[foo.bar, 'title']", "[val, ['trim']]", "[val, 'title', ['trim', 'lazy']]", "[val, arg]",
                           "[val, 'a-b', []]", "[val, null, ['x']]", "[a[0], 'title', y]"]:
                 add("<%s %s={%s} id=\"i\" />" % (host, name, value), k); k += 1
     for host in ["div", "Comp"]:
-        for name in ["v-custom", "vCus", "v-custom:arg", "v-custom_m", "v-custom:arg_m_n", "v-validate", "v-show", "vShow:x_y"]:
+        for name in ["v-custom", "vCus", "v-custom:arg", "v-custom_m", "v-custom:arg_m_n", "v-validate", "v-show", "vShow:x_y",
+                     "vXAxis", "v-BToggle:left_once", "vUIState_m"]:
             for value in ["", "=\"str\"", "={a}", "={[a]}", "={[a, b]}", "={[a, ['m']]}", "={[a, b, ['m', 'n']]}", "={[a, 'lit', ['m']]}"]:
                 add("<%s %s%s title=\"t\">x</%s>" % (host, name, value, host), k); k += 1
     for host in ["div", "Comp"]:
@@ -773,6 +784,8 @@ class TGen(Gen):
             tags.add("any")
         if t == "{}":
             tags.add("empty_obj")
+        if t in ("J1['a']", "J1['a' | 'b']"):
+            tags.add("inherited_index")
         return t, ATOM_KINDS.get(t), tags
 
     def members(self, M):
@@ -913,6 +926,10 @@ class TGen(Gen):
         self.f("emits:%d" % form)
         if not names:
             return r.pick(["{}", "() => void"]), []
+        if len(names) >= 2 and form in (2, 6) and r.chance(1, 2):
+            # overloads: the same event declared twice with other payloads (the set is what counts)
+            names = names + [names[0]]
+            self.f("emits:overload")
         lits = " | ".join("'%s'" % n for n in names)
         if form == 0:
             return "(e: %s, ...args: any[]) => void" % lits, names
